@@ -288,6 +288,10 @@ namespace nmtools::utils
                 nmtools_cassert( ::nmtools::utils::isequal(t_shape,u_shape)
                     , "shape mismatch for isclose"
                 );
+                // when assert is disabled, mismatched shape means not close (and must not be indexed)
+                if (!::nmtools::utils::isequal(t_shape,u_shape)) {
+                    return false;
+                }
                 auto t_indices = ndindex(t_shape);
                 auto u_indices = ndindex(u_shape);
                 auto numel = t_indices.size();
